@@ -20,7 +20,7 @@ MISC = "pyxel/observation/misc.py"
 OBS = "pyxel/observation/observation.py"
 PV = "pyxel/observation/parameter_values.py"
 BOUNDED = {
-    r'.*': 'parameter spaces of 1..3 parameters with 1..3 values each and tables of 1..2 rows (symbolic values and enabled flags)',
+    r'^(?!mode\.selection)': 'parameter spaces of 1..3 parameters with 1..3 values each and tables of 1..2 rows (symbolic values and enabled flags)',
 }      # unit-name / obligation-name patterns -> the family these obligations are proved for
 TRUSTED = ["shapes are bounded: 1..3 parameters, list lengths 1..3, 1..2 table rows (symbolic values, defaults and enabled flags inside each shape)",
            "itertools.product order; pandas: Series(list(idx), index=idx).to_xarray() of idx = MultiIndex.from_product(lists, names) holds entry l at the coordinates l (boundary contract, not proved)", "xarray places each run at its coordinates (boundary)",
@@ -445,3 +445,64 @@ def dimension_names(u: Unit):
             labels = [v.v for _, v in d] if d is not None else []
             u.oblige(p, f"dimension_names.distinct_labels[{tag}]", bool(len(set(labels)) == len(keys)), {"labels": str(labels)}, DIM_REPLAY)
         u.cover(f"dimension_names.cover[{tag}]", ps, lambda p: p.kind == "return")
+
+
+# ---- which enumeration a configuration selects ----------------------------------------------------------------------------------------
+MODE_REPLAY = lambda w: {"code": """
+from pyxel.observation import Observation, ParameterValues
+from pyxel.observation.misc import ProductMode, SequentialMode
+ps = [ParameterValues(key='a.b.x', values=[1, 2, 3]), ParameterValues(key='a.b.y', values=[10, 20])]
+VIOLATED, DETAIL = False, 'mode name selects the enumeration of that name, over the given parameters'
+for mode, cls in (('product', ProductMode), ('sequential', SequentialMode)):
+    o = Observation(parameters=ps, mode=mode, with_dask=(mode == 'product'), pipeline_seed=7)
+    if type(o.parameter_mode) is not cls or list(o.parameter_mode.parameters) != ps or o.with_dask != (mode == 'product') or o.pipeline_seed != 7:
+        VIOLATED, DETAIL = True, f'mode={mode!r}: built {type(o.parameter_mode).__name__} with {len(list(o.parameter_mode.parameters))} parameters, with_dask={o.with_dask}, seed={o.pipeline_seed}'
+try:
+    Observation(parameters=ps, mode='random'); VIOLATED, DETAIL = True, 'unknown mode accepted'
+except NotImplementedError:
+    pass
+""", "expect": "Observation(mode=...) enumerates with the mode of that name over the parameters it was given"}
+
+
+@unit("C05", "mode.selection")
+def mode_selection(u: Unit):
+    """build_parameter_mode / Observation.__init__: 'product' -> ProductMode(parameters), 'sequential' -> SequentialMode(parameters),
+    'custom' -> CustomMode.build(parameters, custom_file = the given file, custom_columns = slice(*column_range) or None); any other name is
+    refused; the observation keeps the dask flag and the seed it was given."""
+    fi = u.fn(f"{OBS}::build_parameter_mode")
+    for mode, want_cls in (("product", "ProductMode"), ("sequential", "SequentialMode"), ("custom", None), ("other", None)):
+        for with_range in ((False, True) if mode == "custom" else (False,)):
+            cfg = Cfg("real")
+            boundary.install(cfg)
+            for cn in ("ProductMode", "SequentialMode"):
+                q = f"{MISC}::{cn}.__init__"
+                cfg.contracts[q] = Contract(q, lambda ex, args, kwargs, fr, cn=cn: (ex.hold.__setitem__("ctor", (cn, list(args[1:]), dict(kwargs))), NONE)[1], "enumeration constructor")
+            qb = f"{MISC}::CustomMode.build"
+            cfg.contracts[qb] = Contract(qb, lambda ex, args, kwargs, fr: (ex.hold.__setitem__("build", ([a for a in args if not isinstance(a, VClass)], dict(kwargs))), VOpaque("xr", None, {"label": "custom_mode"}))[1], "custom.columns")
+
+            def setup(ex, mode=mode, with_range=with_range):
+                ex.hold = {"params": VOpaque("xr", None, {"label": "parameters"}), "file": VStr(z3.String("custom_file"))}
+                return [], {"mode": VStr(mode), "parameters": ex.hold["params"], "custom_filename": ex.hold["file"] if mode == "custom" else NONE,
+                            "column_range": VTuple([VInt(z3.Int("col_lo")), VInt(z3.Int("col_hi"))]) if with_range else NONE}
+            tag = mode + (",range" if with_range else "")
+            ps = u.paths(fi, setup, cfg, label=f"build_parameter_mode[{tag}]")
+            for p in ps:
+                h = p.ex.hold
+                if mode == "other":
+                    u.oblige(p, "mode.selection.unknown_name_refused", p.kind == "raise" and p.exc_name() == "NotImplementedError" and "ctor" not in h and "build" not in h, {}, MODE_REPLAY)
+                elif p.kind != "return":
+                    u.oblige(p, f"mode.selection.no_raise[{tag}]", False, {"exc": p.exc_name()}, MODE_REPLAY)
+                elif want_cls:
+                    cn = p.ex.cls_name(p.st.cell(p.value).cls) if isinstance(p.value, VRef) else None
+                    ok = cn == want_cls and p.st.cell(p.value).fields.get("parameters") is h["params"] and "build" not in h
+                    u.oblige(p, f"mode.selection.named_mode_over_the_given_parameters[{tag}]", bool(ok), {"built": str(cn)}, MODE_REPLAY)
+                else:
+                    a, k = h.get("build", ([], {}))
+                    cols = k.get("custom_columns")
+                    ok = "ctor" not in h and (a + [k.get("parameters")])[0] is h["params"] and k.get("custom_file") is h["file"]
+                    if with_range:
+                        ok = ok and isinstance(cols, VSlice) and isinstance(cols.lo, VInt) and z3.eq(z_int(cols.lo.v), z3.Int("col_lo")) and isinstance(cols.hi, VInt) and z3.eq(z_int(cols.hi.v), z3.Int("col_hi")) and isinstance(cols.step, VNone)
+                    else:
+                        ok = ok and isinstance(cols, VNone)
+                    u.oblige(p, f"mode.selection.custom_file_and_columns[{tag}]", bool(ok), {}, MODE_REPLAY)
+            u.cover(f"mode.selection.cover[{tag}]", ps, lambda p: True)
